@@ -315,13 +315,15 @@ def run_block_model(repo, folder, ma_cls, dn_func, de_func, basic_ops, ops, max_
     preset = {("c", "isnone", "vm"): 0, ("c", "isa", "method", "ExternalMethod"): 0,
               ("c", "truthy", key(mcall(METHOD, "get_code"))): 1}
 
-    import time as _time
-    t_start = _time.time()
+    budget = {"steps": 0, "runs": 0}
+    STEP_BUDGET = 1_500_000      # interpreter steps per scenario (deterministic; the unchanged tree needs < 15 % of it in its largest scenario)
 
     def run(asg0):
-        if len(asg0) > 48 or _time.time() - t_start > 8.0:
-            raise AnalysisError("generic-method model: more than %d undecided facts on one path / 8 s in one scenario (ops=%s, table=%s); "
-                                "the code leaves the fragment the model can enumerate" % (len(asg0), list(ops), exc_table))
+        budget["runs"] += 1
+        if budget["steps"] > STEP_BUDGET:
+            raise AnalysisError("generic-method model: scenario (ops=%s, table=%s) exceeds its interpretation budget after %d paths "
+                                "(%d undecided facts on the current one); the code leaves the fragment the model can enumerate"
+                                % (list(ops), exc_table, budget["runs"], len(asg0)))
         asg = dict(preset)
         asg.update(asg0)
         P = ModelPath()
@@ -433,6 +435,8 @@ def run_block_model(repo, folder, ma_cls, dn_func, de_func, basic_ops, ops, max_
             it.call_function(init, [VM, METHOD], recv=self_obj)
         except Raised as ex:
             P.raised = ex
+        finally:
+            budget["steps"] += it.steps
         P.entered = any(t[0] == "enter" and t[1] == cbb.qualname for t in it.trace)
         if not P.entered or P.raised is not None:
             P.conds = [t[1] for t in it.trace if t[0] == "cond"]
@@ -494,7 +498,9 @@ def run_block_model(repo, folder, ma_cls, dn_func, de_func, basic_ops, ops, max_
         P.conds = [t[1] for t in it.trace if t[0] == "cond"]
         return P
 
-    return [p for _, p in explore(run, max_paths=max_paths)]
+    res = [p for _, p in explore(run, max_paths=max_paths)]
+    run_block_model.last_steps = budget["steps"]
+    return res
 
 
 def compare_partition(P, ops, basic_ops):
